@@ -13,10 +13,11 @@ Open Scope N_scope.
    returns (never DFuel), has written exactly the datagrams whose records lie completely before the cut, counted
    their bytes, and reports: the read error, else io.ErrUnexpectedEOF (3) iff the cut is inside a record. *)
 Theorem C12_udp_terminates_at_any_cut :
-  forall (ds : list dgram) (cut : nat) (cuts : list nat) (e : N) (wd : bool) (fuel : nat),
+  forall (bw : option N) (ds : list dgram) (cut : nat) (cuts : list nat) (e : N) (wd : bool) (fuel : nat),
+  local_path bw ->     (* the local side is written through the fallback loop OR the sendmmsg batch writer *)
   Forall (valid_dgram UdpMaxRecord) ds ->
   (length (firstn cut (encode_all ds)) < fuel)%nat ->
-  exists w, deframe_cur fuel (ust0 (firstn cut (encode_all ds)) cuts e wd None)
+  exists w, deframe_on bw fuel (ust0 (firstn cut (encode_all ds)) cuts e wd None)
             = DDone w (final_err 0 e (tail_after cut ds)) /\
             w_log w = complete_before cut ds /\ w_bytes w = sum_len (complete_before cut ds).
 Proof. exact c12_deframe_any_cut. Qed.
@@ -27,10 +28,11 @@ Print Assumptions C12_udp_terminates_at_any_cut.
    chunking of their concatenation on the other side, exactly those datagrams come out, in order,
    boundaries preserved, with no error and matching byte counters. *)
 Theorem C12_udp_roundtrip :
-  forall (evs : list uev) (cuts : list nat) (wd : bool) (fuel : nat),
+  forall (bw : option N) (evs : list uev) (cuts : list nat) (wd : bool) (fuel : nat),
+  local_path bw ->
   Forall (valid_dgram UdpMaxRecord) (ev_dgrams evs) ->
   (length (concat (e_out (encode_events UdpBatchBufSize evs))) < fuel)%nat ->
-  exists w, deframe_cur fuel (ust0 (concat (e_out (encode_events UdpBatchBufSize evs))) cuts 0 wd None) = DDone w 0 /\
+  exists w, deframe_on bw fuel (ust0 (concat (e_out (encode_events UdpBatchBufSize evs))) cuts 0 wd None) = DDone w 0 /\
             w_log w = ev_dgrams evs /\ w_bytes w = e_sent (encode_events UdpBatchBufSize evs).
 Proof. exact c12_udp_roundtrip. Qed.
 Print Assumptions C12_udp_roundtrip.
@@ -47,12 +49,45 @@ Print Assumptions C12_udp_encoder_stream.
 
 (* termination on ARBITRARY tunnel bytes (hostile / malformed included) *)
 Theorem C12_udp_deframe_total :
-  forall (s : list byte) (cuts : list nat) (e : N) (wd : bool) (fuel : nat),
+  forall (bw : option N) (s : list byte) (cuts : list nat) (e : N) (wd : bool) (fuel : nat),
+  local_path bw ->
   (length s < fuel)%nat ->
-  exists w err, deframe_cur fuel (ust0 s cuts e wd None) = DDone w err /\
+  exists w err, deframe_on bw fuel (ust0 s cuts e wd None) = DDone w err /\
                 w_log w = fst (fst (split_all UdpMaxRecord s)).
 Proof. exact c12_deframe_total. Qed.
 Print Assumptions C12_udp_deframe_total.
+
+(* datagrams are VALUES: from any loop-head state, whatever the loop does afterwards (refill of the re-assembly
+   buffer, compaction, later flushes), the datagrams already handed to the local writer stay exactly as they were —
+   later steps only append.  ALIASING ASSUMPTION (not provable here, it is about Go slices): the real loop hands the
+   writer sub-slices of readBuf that are valid only until flush() returns, so model = code only if the UDP side's
+   Write does not retain p after returning (io.Writer contract).  The correspondence run checks exactly that on
+   the real mapping.UDPVirtualConn (gated slow socket) and on a real *net.UDPConn. *)
+Theorem C12_udp_delivered_datagrams_are_values :
+  forall (bw : option N) (fuel : nat) (s : ust) (w : wst) (e : N),
+  local_path bw -> s_pend s = [] -> w_fail (s_w s) = None -> deframe_on bw fuel s = DDone w e ->
+  exists more, w_log w = w_log (s_w s) ++ more.
+Proof. exact c12_values. Qed.
+Print Assumptions C12_udp_delivered_datagrams_are_values.
+
+(* what the regenerated side condition (batch <= writer capacity, flush test is >=) excludes: one packet more than
+   the sendmmsg writer holds is dropped silently *)
+Theorem C12_udp_batch_writer_overflow_drops :
+  let pend := map (fun i => [N.of_nat i]) (seq 1 33) in
+  uflush_path (Some 32) pend (w0 None) = (false, snd (uflush (firstn 32 pend) (w0 None))) /\
+  length (w_log (snd (uflush_path (Some 32) pend (w0 None)))) = 32%nat.
+Proof. exact c12_batch_overflow_drops. Qed.
+Print Assumptions C12_udp_batch_writer_overflow_drops.
+
+(* non-vacuity of the batch path: 40 datagrams arriving in one tunnel read go through the sendmmsg path intact *)
+Theorem C12_udp_batch_path_example :
+  let ds := map (fun i => [N.of_nat i; 7]) (seq 1 40) in
+  match deframe_on (Some UdpBatchWriterCap) 200 (ust0 (encode_all ds) [] 0 false None) with
+  | DDone w e => w_log w = ds /\ e = 0 /\ w_bytes w = 80
+  | DFuel => False
+  end.
+Proof. exact c12_batch_path_example. Qed.
+Print Assumptions C12_udp_batch_path_example.
 
 (* the defect of the pinned tree: tunnel bytes 00 05 'a' 'b' then EOF — out of fuel for EVERY fuel *)
 Theorem C12_udp_pinned_terminates_refuted :
